@@ -195,7 +195,7 @@ theorem c02_tracepoint_echo (id path : String) (line : Int) (config : Cfg) :
     · have := has_del_self (Cfg.del config WATCHES) LOG_MSG
       rw [show ("log_msg" : String) = LOG_MSG from rfl, this] at hhas; simp at hhas
     · rename_i hc
-      simp only [hc, if_false]
+      simp only [hc]
       simp only [Bool.and_eq_true, beq_iff_eq, not_and] at hc
       exact hc hhas
 
@@ -214,13 +214,53 @@ theorem c02_echo_configured_args (id path : String) (line : Int) (args : Args) (
     Cfg.has t.get_args "watches" = false := by
   cases h : args.find? (fun e => e.1 == "log_msg") with
   | none =>
-    simp [tracepointOf, snapshotConfig, condDel_eq, Cfg.has, Cfg.del, Cfg.get, Cfg.getStrs, Cfg.getD, Args.getD, h,
+    simp [tracepointOf, snapshotConfig, Cfg.has, Cfg.del, Cfg.get, Cfg.getStrs, Cfg.getD, Args.getD, h,
       TracePointConfig.get_watches, TracePointConfig.get_args, WATCHES, LOG_MSG, FRAME_TYPE, STACK_TYPE, FIRE_COUNT,
       FIRE_PERIOD, SINGLE_FRAME_TYPE, STACK]
   | some e =>
-    simp [tracepointOf, snapshotConfig, condDel_eq, Cfg.has, Cfg.del, Cfg.get, Cfg.getStrs, Cfg.getD, Args.getD, h,
+    simp [tracepointOf, snapshotConfig, Cfg.has, Cfg.del, Cfg.get, Cfg.getStrs, Cfg.getD, Args.getD, h,
       TracePointConfig.get_watches, TracePointConfig.get_args, WATCHES, LOG_MSG, FRAME_TYPE, STACK_TYPE, FIRE_COUNT,
       FIRE_PERIOD, SINGLE_FRAME_TYPE, STACK]
+
+/-- the arguments the snapshot action keeps -/
+def keptArgs : List String := ["frame_type", "stack_type", "fire_count", "fire_period", "log_msg"]
+
+/-- the full statement for the arguments: every argument the tracepoint was configured with is echoed with its
+    configured text.  **Not true of the code** (known finding `C02/echo-drops-condition`), see the witness below. -/
+def EchoesAllArgs : Prop :=
+  ∀ (id path : String) (line : Int) (args : Args) (watches : List String) (k : String) (e : String × String),
+    args.find? (fun x => x.1 == k) = some e →
+    Cfg.get (tracepointOf id path line (snapshotConfig args watches)).get_args k = .text e.2
+
+/-- **arguments echoed (partial)** — hypothesis `k ∈ keptArgs`: an argument the snapshot action keeps is echoed
+    with its configured text, for every tracepoint. -/
+theorem c02_echo_all_args_partial (id path : String) (line : Int) (args : Args) (watches : List String)
+    (k : String) (e : String × String) (hk : k ∈ keptArgs) (h : args.find? (fun x => x.1 == k) = some e) :
+    Cfg.get (tracepointOf id path line (snapshotConfig args watches)).get_args k = .text e.2 := by
+  obtain ⟨_, h1, h2, h3, h4, _, h5, _⟩ := c02_echo_configured_args id path line args watches
+  simp only [keptArgs, List.mem_cons, List.not_mem_nil, or_false] at hk
+  rcases hk with rfl | rfl | rfl | rfl | rfl
+  · rw [h1]; simp [Args.getD, h]
+  · rw [h2]; simp [Args.getD, h]
+  · rw [h3]; simp [Args.getD, h]
+  · rw [h4]; simp [Args.getD, h]
+  · exact h5 e h
+
+/-- the hypothesis is needed: a `condition` argument is not echoed (the same input is replayed on the
+    implementation as known finding `C02/echo-drops-condition`) -/
+theorem c02_echo_drops_condition_witness :
+    Cfg.has (tracepointOf "tp" "x.py" 12 (snapshotConfig [("condition", "a > 1")] [])).get_args "condition" = false ∧
+    ¬ EchoesAllArgs := by
+  refine ⟨by decide, fun h => ?_⟩
+  have := h "tp" "x.py" 12 [("condition", "a > 1")] [] "condition" ("condition", "a > 1") (by decide)
+  revert this
+  decide
+
+/-- … and a function-entry tracepoint (location line -1) is echoed with line 0, whatever line it was configured at -/
+theorem c02_echo_function_line_witness :
+    (tracepointOf "tp" "x.py" (-1) (snapshotConfig [("method_name", "f")] [])).get_line_no = 0 ∧
+    Cfg.has (tracepointOf "tp" "x.py" (-1) (snapshotConfig [("method_name", "f")] [])).get_args "method_name" = false := by
+  decide
 
 /-- the snapshot of the model carries that echo -/
 theorem c02_snapshot_names_tracepoint (H : Heap) (id path : String) (line : Int) (config : Cfg) (app : AppCfg)
@@ -342,6 +382,107 @@ theorem c02_top_vars_exact (H : Heap) (id path : String) (line : Int) (config : 
       obtain ⟨e', he', h1, h2⟩ := search0_closed hn e1 he1 c hc'
       refine ⟨e', he', h1, h2, ?_⟩
       exact run_ok _ _ (by rw [bfsInit_table]; intro e he; simp at he) e' he'
+
+theorem collect_table {H : Heap} {a : ActionIn} {cs : Collector.Snapshot} (h : Collector.collect H a = .ok cs) :
+    cs.table = (collectWatches H a.limits a.watches (collectFrames H a.limits a.frames [] []).cache
+      (collectFrames H a.limits a.frames [] []).table).table := by
+  unfold Collector.collect collectFrom at h
+  simp only at h
+  split at h
+  · simp at h
+  · split at h
+    · simp at h
+    · simp only [Outcome.ok.injEq] at h
+      subst h
+      rfl
+
+theorem collectFrames_skip (H : Heap) (L : Limits) (fs : List FrameIn) (c : Cache) (t : List Entry)
+    (h : ∀ f ∈ fs, f.collect = false) :
+    (collectFrames H L fs c t).table = t ∧ (collectFrames H L fs c t).cache = c := by
+  induction fs with
+  | nil => simp [collectFrames]
+  | cons f fs ih =>
+    unfold collectFrames
+    have hf := h f (List.mem_cons_self ..)
+    simp only [hf, Bool.not_false, if_true]
+    exact ih (fun g hg => h g (List.mem_cons_of_mem _ hg))
+
+theorem collectWatches_super (H : Heap) (L : Limits) (ws : List WatchIn) (c : Cache) (t : List Entry) :
+    ∀ e ∈ t, e ∈ (collectWatches H L ws c t).table := by
+  induction ws generalizing c t with
+  | nil => intro e he; exact he
+  | cons w ws ih =>
+    intro e he
+    unfold collectWatches
+    dsimp only
+    split
+    · split
+      · exact he
+      · exact ih _ _ e (List.mem_append_left _ he)
+    · split
+      · exact ih _ _ e he
+      · split
+        · exact ih _ _ e he
+        · exact ih _ _ e (List.mem_append_left _ he)
+
+theorem frameInsFrom_uncollected (config : Cfg) (timeUp : Nat → Bool) (k : Nat) (stack : Stack)
+    (h : ∀ i, k ≤ i → varsCollected config timeUp i = false) :
+    ∀ f ∈ frameInsFrom config timeUp k stack, f.collect = false := by
+  induction stack generalizing k with
+  | nil => simp [frameInsFrom]
+  | cons fr rest ih =>
+    intro f hf
+    simp only [frameInsFrom, List.mem_cons] at hf
+    rcases hf with rfl | hf
+    · exact h k (Nat.le_refl _)
+    · exact ih (k + 1) (fun i hi => h i (by omega)) f hf
+
+/-- **top frame variables, delivered** — when only the paused frame is selected (frame_type single_frame, unknown
+    or absent) and its search runs to its end, every variable of the top frame (other than a reference to the
+    locals dict itself) resolves, in the table of the finished snapshot, to an entry recorded for the local's own
+    object — which `c02_entry_faithful` shows to carry that object's type name and rendered value. -/
+theorem c02_top_vars_delivered (H : Heap) (id path : String) (line : Int) (config : Cfg) (app : AppCfg)
+    (timeUp : Nat → Bool) (fr : RawFrame) (rest : Stack) (ev : EvalOracle) (s : Frames.Snapshot)
+    (h : snapshot H id path line config app timeUp (fr :: rest) ev = .ok s)
+    (hc : varsCollected config timeUp 0 = true) (hn : NoCut0 H (limitsOf config) fr.locals)
+    (hsingle : ∀ i, 1 ≤ i → varsCollected config timeUp i = false) :
+    ∃ f0, s.frames.head? = some f0 ∧ ∀ v ∈ f0.variables, v.obj ≠ fr.locals →
+      ∃ e ∈ s.table, e.vid = v.vid ∧ e.obj = v.obj := by
+  obtain ⟨f0, hf0, _, hres⟩ := c02_top_vars_exact H id path line config app timeUp fr rest ev s h hc hn
+  refine ⟨f0, hf0, ?_⟩
+  intro v hv hne
+  obtain ⟨e, he, h1, h2, _⟩ := hres v hv
+  obtain ⟨cs, hcs, rfl⟩ := snapshot_ok h
+  obtain ⟨vl, e1, hl, hfe, he1, hv1, ho1, _⟩ := search0_locals hn
+  have hfail := (collect_frames hcs).1
+  suffices hmem : e ∈ cs.table from ⟨e, hmem, h1, h2⟩
+  rw [collect_table hcs]
+  apply collectWatches_super
+  -- the table after the frames = the unwrapped table of the search of frame 0
+  simp only [actionIn, frameIns, visited_eq, frameInsFrom, hc] at hfail ⊢
+  unfold collectFrames at hfail ⊢
+  simp only [Bool.not_true, Bool.false_eq_true, if_false] at hfail ⊢
+  have hpv : processVariable H (limitsOf config) [] [] localsName fr.locals =
+      ⟨(search0 H (limitsOf config) fr.locals).cache, (search0 H (limitsOf config) fr.locals).table,
+       lookupId (search0 H (limitsOf config) fr.locals).cache fr.locals,
+       (search0 H (limitsOf config) fr.locals).failed⟩ := by
+    simp [processVariable, lookupId, search0]
+  rw [hpv] at hfail ⊢
+  dsimp only at hfail ⊢
+  simp only [hn.2.2]
+  have hskip := collectFrames_skip H (limitsOf config) (frameInsFrom config timeUp (0 + 1) rest)
+    (search0 H (limitsOf config) fr.locals).cache
+    (unwrap (search0 H (limitsOf config) fr.locals).table
+      (lookupId (search0 H (limitsOf config) fr.locals).cache fr.locals)).2
+    (frameInsFrom_uncollected config timeUp 1 rest hsingle)
+  rw [hskip.1]
+  simp only [hl, unwrap, hfe, removeEntry]
+  refine List.mem_filter.mpr ⟨he, ?_⟩
+  simp only [decide_eq_true_eq]
+  intro hvid
+  have : e = e1 := search0_inj e he e1 he1 (by rw [hvid, hv1])
+  rw [this, ho1] at h2
+  exact hne h2.symm
 
 /-- for a real frame the statement's children of the locals dict are its items: names = local names, in order -/
 theorem c02_locals_are_items (L : Limits) (o : PyObj) (hd : o.isDictExact = true) (ht : o.tyName = "dict")
